@@ -1350,6 +1350,7 @@ def build(tier):
                                                          functions=fns, expect_classes=list(expect) or ["assigns"], note=note))
 
     specs = {}
+    broken_callees = []
     for nm in ("stack_4_matricies", "stack_9_matricies"):
         t, sp, h = f_stack(P, nm)
         specs[nm] = sp
@@ -1359,7 +1360,18 @@ def build(tier):
                               ("sort_epairs", f_sort, "sort_epairs", ["loop_invariant_step", "column index in range", "vector coefficient in range"]),
                               ("removeColumns", f_remove, "removeColumns", ["loop_invariant_step", "setFromTriplets", "product dimensions agree", "matrix dims >= 0"]),
                               ("checkConvergence_getBlocksize", f_check, "checkConvergence_getBlocksize", ["loop_invariant_step", "coefficient (row, col) in range", "push_back within"])):
-        t, sp, h = fn_(P)
+        try:
+            t, sp, h = fn_(P)
+        except X.ExtractionBreak as e:
+            if key != "checkConvergence_getBlocksize":
+                raise
+            # the body of the convergence helper no longer fits the rules: that function is UNDECIDED; compute() is still verified against the helper's CONTRACT (which depends
+            # on the signature only) - a failure there counts only if the native replay shows the property clause broken on the real code (weak groups)
+            from vlib import z3lemma
+            specs[key] = cc_spec(P, P.finfo[nm])
+            groups.append(z3lemma.StaticGroup("lobpcg." + key, ok=False, detail=str(e), obligation="extraction of " + nm, undecided_on_fail=True))
+            broken_callees.append(nm)
+            continue
         specs[key] = sp
         G(key, P.base + t + h, nm, [HDR + ":" + nm], expect=exp, timeout=400 if key.startswith("check") else 300)
     for key, (t, sp, h) in f_ctor_setters(P).items():
@@ -1382,6 +1394,11 @@ def build(tier):
     G("compute.accessors", ctext + harn["accessors"], "compute", [HDR + ":compute", HDR + ":eigenvalues", HDR + ":eigenvectors", HDR + ":residuals"], timeout=600,
       defines=["NO_EIG_ASSERT"], expect=["loop_invariant_step", "eigenvectors() is n x k", "eigenvalues() has k entries"], traced=True,
       note="same text; the three accessors (extracted) are called on the exit state of compute()")
+    if broken_callees:
+        for g in groups:
+            if g.name.startswith("lobpcg.compute"):
+                g.weak = ("compute() verified against the contract of %s, whose body could not be extracted: a refutation counts only if the native replay shows a clause of the "
+                          "property broken on the real code" % ", ".join(broken_callees))
     meta = {"level": "proof", "trusted_base": ["cbmc 6.11.0 dfcc", "cadical", "extractor + generic shape evaluator (props/C17.py)"],
             "assumptions": ASSUMPTIONS, "not_covered": NOT_COVERED, "extraction": report,
             "explanation": "structural clauses of C17 only, on C text re-extracted from contrib/LOBPCGSolver.h by the generic shape evaluator; unbounded in n, k, maxit, iterations, flags and prior object state"}
@@ -1399,6 +1416,12 @@ def replay(g, o, assigns, path):
         mode = 1
     else:
         mode = 6        # any other obligation: family of inputs inside the quantifier, Eigen assertions on (an abort = reproduced)
+    if getattr(g, "weak", None) and mode == 6:
+        # weak compute groups: the status / shape clauses of the property against the pencil itself (random well-separated pencils, loose tolerances)
+        r7 = RP.run_native(PROP, RP.src("C17_lobpcg_replay.cpp"), args=[7], cxxflags="-O1 -std=c++11", name="replay7")
+        if r7.get("reproduced"):
+            r7["verifier_counterexample"] = stored_trace(PROP, g, o)
+            return r7
     res = RP.run_native(PROP, RP.src("C17_lobpcg_replay.cpp"), args=[mode], cxxflags="-O1 -std=c++11", name="replay%d" % mode)
     res["verifier_counterexample"] = stored_trace(PROP, g, o)     # the runner does not re-run cbmc for a TracedGroup: the trace of the group's own run is kept here
     return res
